@@ -5,7 +5,15 @@ import (
 )
 
 func mergeDocs(doc, patch *Document) error {
-	merged, err := merge(doc.Data, patch.Data)
+	// One patch may be merged into several documents. merge keeps parts of
+	// the tree it is given and edits it ($replace: true is deleted from it),
+	// so every target gets its own copy.
+	data, err := deepClone(patch.Data)
+	if err != nil {
+		return err
+	}
+
+	merged, err := merge(doc.Data, data)
 	if err != nil {
 		return err
 	}
